@@ -14,8 +14,8 @@ from ..core import floats
 
 ID = "C08"
 THREADS = True       # part of the cases run concurrently in threads of one interpreter (the schedule dimension)
-MODULES = ["TWV.Tie.WeaverEffects", "TWV.Properties.C08", "TWV.Properties.C08Commute"]
-TRANSLATORS = ["t6_effects"]
+MODULES = ["TWV.Tie.WeaverEffects", "TWV.Properties.C08", "TWV.Properties.C08Commute", "TWV.Tie.WeaverStep"]
+TRANSLATORS = ["t6_effects", "t9_weaver"]
 RULE = ("random histories (length 0..8) of the ten domain operations (append, shift x/y, scale x/y, normalise x/y, repeat, "
         "truncate by value with absolute / ratio / on-sample bounds, truncate by index) on random series of 4..12 points, "
         "followed by a recreate (six strategies, n 2..5) + integral_match (2x2 rules, alpha 1..3) pipeline; thorough adds "
